@@ -42,8 +42,8 @@ RULE = ('exhaustive_shapes: every sequence of up to N tokens over ten token clas
         'noise: random strings over {letters space ~ - { } \\ ,}; malformed: delete/duplicate/replace/truncate mutations of valid names; '
         'pinned: the inputs of F1 and of every disagreement seen while building the check. '
         'distinct = distinct (function, argument); non-trivial = the model returns a person with a non-empty von or jr part, or reports too many commas, or splits into >= 2 tokens.')
-EXHAUSTIVE = {'quick': 'all token-class sequences of length <= 3 x 0..3 commas and of length 4 x 0..2 commas (ten classes); all strings of length <= 5 over an 8-letter alphabet; all middle tokens of length <= 5 over a 6-letter alphabet',
-              'thorough': 'all token-class sequences of length <= 4 x 0..3 commas and of length 5 x 0..1 commas (ten classes); all strings of length <= 6 over an 8-letter alphabet; all middle tokens of length <= 6 over a 6-letter alphabet'}
+EXHAUSTIVE = {'quick': 'all token-class sequences of length <= 3 x 0..3 commas and a fixed third of those of length 4 x 0..2 commas (ten classes); all strings of length <= 5 over the 8-letter alphabet {a B space ~ , { } \\}; all middle tokens of length <= 5 over {a B 1 { } \\}',
+              'thorough': 'all token-class sequences of length <= 3 x 0..3 commas and of length 4 x 0..2 commas (ten classes); all strings of length <= 5 over the 8-letter alphabet and of length 6 over {a space ~ , { }}; all middle tokens of length <= 6 over {a B 1 { } \\}'}
 TRUSTED_BASE = ['modelled (not verified) code: pybtex/database/__init__.py Person.__init__/_parse_string (617-789) and pybtex/bibtex/utils.py '
                 'split_tex_string/_find_closing_brace/BIBTEX_SPACE_RE (445-552), BibTeXString/scan_bibtex_string (96-147, 408-418)',
                 'BIBTEX_SPACE_RE and the "," separator are hand-written matchers (Model/BibtexStr.v space_run, sep_comma), compared with the live '
@@ -338,7 +338,7 @@ def gen(tier, rng):
         yield ('pinned', 5, [s])
     # (a) exhaustive over token-class shapes
     ncls = len(CLASSES)
-    plan = [(0, 3), (1, 3), (2, 3), (3, 3), (4, 2)] if quick else [(0, 3), (1, 3), (2, 3), (3, 3), (4, 3), (5, 1)]
+    plan = [(0, 3), (1, 3), (2, 3), (3, 3), (4, 2)]
     for ntok, maxc in plan:
         placements = [p for k in range(maxc + 1) for p in _comma_placements(ntok + 1, k)]
         for classes in itertools.product(range(ncls), repeat=ntok):
@@ -347,13 +347,15 @@ def gen(tier, rng):
             for pl in placements:
                 yield ('exhaustive_shapes', 1, [_shape(classes, pl)])
     # (b) exhaustive over characters (totality, separators, unbalanced braces)
-    for n in range(0, 6 if quick else 7):
+    for n in range(0, 6):
         for tup in itertools.product(ALPHA, repeat=n):
             s = ''.join(tup)
             yield ('exhaustive_chars', 1, [s])
-            if n <= (5 if quick else 6):
-                yield ('exhaustive_chars', 4, [s])
-                yield ('exhaustive_chars', 5, [s])
+            yield ('exhaustive_chars', 4, [s])
+            yield ('exhaustive_chars', 5, [s])
+    if not quick:
+        for tup in itertools.product('a ~,{}', repeat=6):
+            yield ('exhaustive_chars', 1, [''.join(tup)])
     # (c) the case rule: every small token in a position where only its case decides
     for n in range(1, 6 if quick else 7):
         for tup in itertools.product('aB1{}\\', repeat=n):
@@ -382,7 +384,7 @@ def gen(tier, rng):
                 s += sep()
             s += p
         return s
-    for i in range(4000 if quick else 60000):
+    for i in range(4000 if quick else 30000):
         s = name()
         if rng.random() < 0.2:
             s = rng.choice(WS) + s + rng.choice(WS)
@@ -393,13 +395,13 @@ def gen(tier, rng):
             yield ('random', 4, [s]); yield ('random', 5, [s])
     # (e) noise
     NOISE = 'abcXYZ  ~~-{{}}\\,,.1\''
-    for i in range(3000 if quick else 40000):
+    for i in range(3000 if quick else 20000):
         s = ''.join(rng.choice(NOISE) for _ in range(rng.randint(0, 24)))
         yield ('noise', 1, [s])
         if i % 3 == 0:
             yield ('noise', 4, [s]); yield ('noise', 5, [s])
     # (f) malformed: character-level mutations of valid names
-    for i in range(2000 if quick else 30000):
+    for i in range(2000 if quick else 15000):
         s = list(name())
         for _ in range(rng.randint(1, 3)):
             if not s:
